@@ -16,6 +16,8 @@ type ActCase struct {
 	Tree    map[string]string `json:"tree"`
 	Actions []Act             `json:"actions"`
 	Sched   Sched             `json:"sched"`
+	// Symlink: proj/spokfile is a symbolic link to ../shared/spokfile (a spokfile shared between projects)
+	Symlink bool `json:"symlink,omitempty"`
 }
 
 // Act is one invocation.
@@ -76,7 +78,7 @@ func (actScen) Gen(r *Rng, cfg GenConfig) any {
 	}
 	c.Prog.Tasks = Shuffled(r, c.Prog.Tasks)
 	for _, vn := range Subset(r, []string{"VERSION", "NAME", "TARGET"}, 1, 2) {
-		c.Prog.Vars = append(c.Prog.Vars, VarDef{Name: vn, Kind: "str", Args: []string{Pick(r, []string{"1.2.3", "hello world", "x", "a/b"})}})
+		c.Prog.Vars = append(c.Prog.Vars, VarDef{Name: vn, Kind: "str", Args: []string{Pick(r, []string{"1.2.3", "hello world", "x", "a/b", "k=v", "=lead", "-X a=b -Y c=d", "trail="})}})
 	}
 	c.Prog.Layout = r.Intn(6)
 	c.Tree["a.txt"], c.Tree["b.txt"] = "1", "1"
@@ -86,6 +88,7 @@ func (actScen) Gen(r *Rng, cfg GenConfig) any {
 			c.Tree[d] = "UNRELATED=1\n"
 		}
 	}
+	c.Symlink = cfg.Prop == "C19" && r.Chance(1, 6)
 	na := r.Range(2, 6)
 	for i := 0; i < na; i++ {
 		a := Act{Cwd: Pick(r, acCwds)}
@@ -160,6 +163,12 @@ func (actScen) Exec(w *World, cc any, prop string) *Result {
 		text += fmt.Sprintf("task %s() {\n    echo again\n}\n", c.Prog.Tasks[0].Name)
 	}
 	writeFile(filepath.Join(proj, "spokfile"), text)
+	if c.Symlink {
+		must(os.Remove(filepath.Join(proj, "spokfile")))
+		writeFile(filepath.Join(w.Home, "shared", "spokfile"), text)
+		must(os.Symlink(filepath.Join("..", "shared", "spokfile"), filepath.Join(proj, "spokfile")))
+		res.count("probe:spokfile_is_a_symlink")
+	}
 	s.logDelta()
 	// which directories hold a spokfile, and of which kind
 	spokAt := map[string]string{"": c.Kind} // dir relative to proj -> valid|...|demo
@@ -213,6 +222,9 @@ func (actScen) Exec(w *World, cc any, prop string) *Result {
 		case isFmt:
 			if useKind == "valid" || useKind == "demo" {
 				allowed[relHome(filepath.Join(useDir, "spokfile"))] = true
+				if c.Symlink && useDir == "" {
+					allowed["shared/spokfile"] = true // writing through the link rewrites its target
+				}
 			}
 		}
 		if prop == "C19" {
@@ -596,6 +608,9 @@ func (actScen) Shrinks(cc any) []any {
 	}
 	if c.Prog.Layout != 0 {
 		add(func(n *ActCase) { n.Prog.Layout = 0 })
+	}
+	if c.Symlink {
+		add(func(n *ActCase) { n.Symlink = false })
 	}
 	return out
 }
